@@ -82,7 +82,7 @@ def opterm(op, lo, hi):
 
 def sid(d):
     keys = ("op", "axes", "arr", "axis", "to", "order", "extra", "gperiodic", "gboundary", "gfill", "cboundary", "cfill",
-            "dshifts", "coords", "canary")
+            "dshifts", "coords", "canary", "prior")
     return ";".join(f"{k}={json.dumps(d[k], sort_keys=True)}" for k in keys if d.get(k) is not None).replace('"', "").replace(" ", "")
 
 
@@ -111,6 +111,13 @@ def structures(tier, seed):
         gboundary="fill", cfill={"X": "S"}, gfill={"X": "S", "Y": "S"}, gperiodic=False)
     add(op="interp", axes={"X": ("center", "left")}, arr={"X": "left"}, to="center", gboundary="extend", cboundary="fill", cfill={"X": "S"}, gfill="S")
     add(op="max", axes={"X": ("center", "left")}, arr={"X": "center"}, to="left", gboundary="fill", cboundary="extend", gfill="S", gperiodic=False)
+    # (1c) the same request after OTHER requests on the same Grid object (each differing in one respect): exactness is a property of
+    # every call, not of the first call on a fresh Grid
+    allpos = ("center", "left", "right", "inner", "outer")
+    for op, pt, prior in (("diff", "right", [["diff", "X", None]]), ("interp", "outer", [["diff", "X", "left"], ["interp", "X", "inner"]]),
+                          ("min", "left", [["max", "X", "right"]]), ("max", "inner", [["max", "X", None], ["min", "X", "outer"]]),
+                          ("diff", None, [["diff", "X", "right"]]), ("interp", "left", [["interp", "X", "left"], ["interp", "X", "right"]])):
+        add(op=op, axes={"X": allpos}, arr={"X": "center"}, to=pt, cboundary="fill", cfill="S", gperiodic=False, prior=prior)
     # (2) rule from the grid default (periodic flag / grid boundary / grid fill) and default shift
     for (pf, pt) in SHIFTS:
         poss = tuple(dict.fromkeys(("center", pf, pt)))
@@ -208,6 +215,14 @@ def scenario(s, w):
     if cfill is not None:
         ckw["fill_value"] = cfill
     axis = list(s["axis"]) if isinstance(s["axis"], list) else s["axis"]
+    for (pop, pax, pto) in s.get("prior") or []:
+        # earlier requests on the same Grid object; their results are not used
+        try:
+            getattr(g, pop)(da, pax, **({"to": pto} if pto else {}))
+        except (symx.EngineUnsupported, symx.InfeasiblePath, symx.PathAbort):
+            raise
+        except Exception:  # noqa
+            pass
     out = getattr(g, s["op"])(da, axis, **ckw)
     return dict(out=out, da=da, g=g, ds=ds, layout=layout, ns=ns, gfill=gfill, cfill=cfill, adims=adims, dims=dims, cdefs=cdefs)
 
